@@ -18,7 +18,7 @@ CLAIMED = {
  "C14": ("backup cut from tx.meta (never db.meta()), both meta pages checksummed after their last change with page 0 keeping the higher txid, data window [2*pageSize, tx.Size()) and byte accounting on the success path and on each failing write (WriteTo evaluated symbolically), CopyFile closes the destination and returns the close error; free-set entry chain re-evaluated (the snapshot's pages stay out of the free set while the backup reader is registered)", "4 C14"),
  "C15": ("SetSequence(seq) after every CreateBucket in both arms with seq = Sequence() of the reported bucket, one captured transaction cell re-assigned after an intermediate commit, source flows only into walk -> View and is opened ReadOnly by the CLI, callback/walk errors abort before the final commit; a parent with an unopened paged sub-bucket is never written inline (inlineable() tabulated with an empty per-transaction bucket cache)", "4 C15"),
  "C18": ("the size handed to file.Truncate is compared with / clamped to db.MaxSize on every path (windows: in db.mmap before mapping), size-limit error raised before remap and before the high-water mark moves and propagated unchanged, DB.MaxSize has Options.MaxSize as its only source, a size-limit failure of Commit takes the physical rollback; db.allocate's size-limit decision tabulated (refusal before the high-water mark moves, ErrMaxSizeReached, requests that fit are granted)", "4 C18, 8.2"),
- "C20": ("every surgery writer call takes the --output path and is dominated by a successful CopyFile(source, output), the source path is only read, CopyFile refuses an existing destination, raw page writers confined to surgery, rewritten metas re-checksummed and both metas cleared, revert copies the other meta (tabulated) and retargets the page id before writing", "4 C20"),
+ "C20": ("every surgery writer call takes the --output path and is dominated by a successful CopyFile(source, output), the source path is only read, CopyFile refuses an existing destination, raw page writers confined to surgery, rewritten metas re-checksummed and both metas cleared, revert copies the other meta (tabulated) and retargets the page id before writing; every writer of meta pages in the module (commit, init, backup, surgery) checksums after the last change, so the page revert copies is valid", "4 C20"),
  "C04": ("in every exported mutator all effect sites are unreachable on a closed or read-only transaction and no error return follows an effect, the pre-effect validation of each mutator has not shrunk (frozen table), bucket-cache coherence (a cached child is freed or re-homed, never dropped), remap dereferences the writer before unmapping, key-order predicates tabulated over bytes.Compare, bucket header / sequence ownership; a user rollback undoes the page frees of DeleteBucket (freelist.Rollback before close on the abort path); keys handed to node.put never alias a caller-supplied slice", "4 C04"),
  "C05": ("after every raw descent no return precedes an emptiness test of the leaf (first/next/prev/Last/Seek), next/prev agree on re-positioning and on the exhausted position, every loop driven by a cursor advance has an exit depending on the key returned, lower-bound search predicates and branch step-back tabulated; every return of a value taken from a raw cursor step (First/Last/Next/Prev/Seek, Bucket.Get) is guarded by a bucket-bit test of that same step's flags (nested buckets reported with a nil value)", "4 C05"),
  "C07": ("free-before-drop for node page ids, bucket roots and node-cache removals, no mutation of a bucket from inside its own ForEach/ForEachBucket callback (every call site in the module), freelist pointer redefined and old freelist page freed before the new one is allocated, Bucket.free frees pages and nodes and DeleteBucket orders nested-delete < free < key removal, physical rollback gives pages back, aborts undo frees, inline conversion frees the old pages; page capacity: page counts requested for nodes and the free list cover ceil(size/pageSize) of the very object written, buffers are count*pageSize, node.size/sizeLessThan/serialiser agree on the terms, Commit grows the file to the high-water mark and grow truncates to at least the request (tabulated); a root leaf holding a nested-bucket element is never inlineable (inlineable() tabulated); mmapSize / db.mmap / allocate-remap tabulated (the mapping covers every page up to the high-water mark)", "4 C07, 8.2"),
